@@ -164,7 +164,10 @@ Definition compute_mro (h : hier) (c : cls) : cres_kind * list cls :=
   end.
 
 (* Class.allbases(include_self=True): yield self; for b in baseobjects: if b is not None: yield from b.allbases(True)
-   (baseobjects holds None for the bases that are not Class objects) *)
+   (baseobjects holds None for the bases that are not Class objects).
+   Exact whenever init_finalbaseobjects has succeeded (all bases are the final ones).  After a CYCLE
+   error the real code walks the bases as resolved at visit time (creation order, hence finite); that
+   list is not modelled and the harness does not compare it. *)
 Fixpoint allbases (fuel : nat) (h : hier) (c : cls) : list cls :=
   match fuel with
   | O => []
